@@ -6,7 +6,7 @@ Run as   /venv/bin/python -m harness.props.c17_child <spec.json>      (cwd = the
 
 spec = {"file": path, "mode": "w"|"a"|"r", "seed": int, "phases": [n_ops, ...], "end": END, "out": path,
         "big": bool, "kill": true|false}
-END  = "flush" | "close" | "exit" | "exit_exc" | "none" | "flush_flush" | "close_noflush_probe"
+END  = "flush" | "close" | "exit" | "exit_exc" | "none" | "flush_flush"
 out  = {"flush_points": [flatten(walk) per flush point], "final_walk": full walk at the last flush point,
         "ops": [executed op log], "mode": ..., "end": ..., "pre_walk_equal_post": bool|None}
 
@@ -623,11 +623,27 @@ def run(spec):
                 out["stable_walk"] = (flat == flat2)
 
     path = spec["file"]
+
+    def finish():
+        tmp = spec["out"] + ".tmp"
+        with open(tmp, "w") as fh:
+            json.dump(out, fh)
+        os.replace(tmp, spec["out"])
+
+    def open_file():
+        # a failing open (a file damaged by an earlier generation): recorded, no history, no kill
+        try:
+            return nix.File.open(path, spec["mode"])
+        except Exception as e:
+            out["open_error"] = type(e).__name__
+            finish()
+            os._exit(3)
+
     if end in ("exit", "exit_exc"):
         class _Leave(Exception):
             pass
         try:
-            with nix.File.open(path, spec["mode"]) as f:
+            with open_file() as f:
                 out["enter_is_file"] = isinstance(f, nix.File)
                 body(f)
                 if end == "exit_exc":
@@ -639,7 +655,7 @@ def run(spec):
                 raise                # the history itself failed: infrastructure, not the property
             out["end_error"] = type(e).__name__
     else:
-        f = nix.File.open(path, spec["mode"])
+        f = open_file()
         body(f)
         try:
             if end == "flush":
@@ -655,34 +671,57 @@ def run(spec):
                 raise SystemExit("unknown end %r" % end)
         except Exception as e:       # a flush()/close() that raises: recorded, the kill still happens
             out["end_error"] = type(e).__name__
-    tmp = spec["out"] + ".tmp"
-    with open(tmp, "w") as fh:
-        json.dump(out, fh)
-    os.replace(tmp, spec["out"])
+    finish()
     if spec.get("kill", True):
         os.kill(os.getpid(), signal.SIGKILL)
     # kill=false: fall off the end without closing (interpreter teardown); used by nothing in the check
     os._exit(0)
 
 
-def observe(spec):
-    """reopen read-only, then read-write: canonical walk of each (or the error class of the open)"""
+def _observe_one(spec, m):
     import nixio as nix
     from harness.lib import walk as W
+    try:
+        f = nix.File.open(spec["file"], m)
+    except BaseException as e:
+        return {"open_error": type(e).__name__}
+    res = {}
+    try:
+        res["walk"] = W.walk_or_error(f)
+    finally:
+        try:
+            f.close()
+        except Exception as e:
+            res["close_error"] = type(e).__name__
+    return res
+
+
+def observe(spec):
+    """reopen read-only, then read-write — each in a process of its own (forked after the imports, so an
+    observer whose close() does not close cannot disturb the next open): canonical walk of each, or the error
+    class of the open"""
+    import nixio  # noqa: F401  (import before forking)
+    from harness.lib import walk  # noqa: F401
     res = {}
     for m in spec.get("modes", ["r", "a"]):
-        try:
-            f = nix.File.open(spec["file"], m)
-        except BaseException as e:
-            res[m] = {"open_error": type(e).__name__}
-            continue
-        try:
-            res[m] = {"walk": W.walk_or_error(f)}
-        finally:
+        part = "%s.%s.part" % (spec["out"], m)
+        pid = os.fork()
+        if pid == 0:
+            code = 0
             try:
-                f.close()
-            except Exception as e:
-                res[m]["close_error"] = type(e).__name__
+                r = _observe_one(spec, m)
+                with open(part, "w") as fh:
+                    json.dump(r, fh)
+            except BaseException:
+                code = 4
+            os._exit(code)
+        _, status = os.waitpid(pid, 0)
+        try:
+            with open(part) as fh:
+                res[m] = json.load(fh)
+            os.unlink(part)
+        except (OSError, ValueError):
+            res[m] = {"open_error": "observer-crashed status=%d" % status}
     tmp = spec["out"] + ".tmp"
     with open(tmp, "w") as fh:
         json.dump(res, fh)
